@@ -1217,11 +1217,629 @@ fn stream_curated(sess: &mut Session, ctx: &Ctx, rng: &mut Rng) {
 }
 
 // ---------------------------------------------------------------------------------------------
+// w25: the entry points of the Dictionary trait and of spell/mod.rs that no stream above calls
+// (`fuzzy_match_str`, `get_word_from_id`, `suggest_correct_spelling(_str)`, `words_iter` of a
+// merged dictionary, the blanket impl for `Arc<D>`, `From<MutableDictionary> for FstDictionary`,
+// `Clone`), dictionaries that are queried WHILE they grow, and merged dictionaries shaped as the
+// front-ends build them: harper-ls / harper-cli `[curated, user, file]`, harper-wasm
+// `[curated, user]`, harper-core's collapse_identifiers a merged dictionary inside a merged one.
+// O only, except where an existing op (`dq`, `fzall`, `fzfall`, `mq`, `mfz`) is reused.
+// ---------------------------------------------------------------------------------------------
+
+/// a clause class of `fuzzy_oracle` observed at another entry point
+fn via(class: &str, entry: &str) -> String {
+    if class == FST_CASE_VARIANT { class.to_string() } else { format!("{}-via-{}", class, entry) }
+}
+
+fn run_fuzzy_str(d: &dyn Dictionary, q: &[char], bound: u8, cap: usize) -> Result<Res, String> {
+    let s = w2s(q);
+    guarded(|| d.fuzzy_match_str(&s, bound, cap).iter().map(|r: &FuzzyMatchResult| (r.word.to_vec(), r.edit_distance)).collect())
+}
+
+/// `suggest_correct_spelling` (chars) and `suggest_correct_spelling_str`, through the blanket impl for `Arc<dyn Dictionary>`
+fn run_suggest(d: &Arc<dyn Dictionary>, q: &[char], bound: u8, cap: usize) -> Result<(Vec<W>, Vec<W>), String> {
+    let s = w2s(q);
+    guarded(|| {
+        let a: Vec<W> = harper_core::spell::suggest_correct_spelling(q, cap, bound, d).into_iter().map(|w| w.to_vec()).collect();
+        let b: Vec<W> = harper_core::spell::suggest_correct_spelling_str(s.clone(), cap, bound, d).iter().map(|w| s2w(w)).collect();
+        (a, b)
+    })
+}
+
+/// the three lower-case forms a back-end may measure against
+fn query_forms(q: &[char]) -> (W, W, W) {
+    let nq = norm(q);
+    let ql = lower(&nq);
+    let sql = s2w(&w2s(&nq).to_lowercase());
+    (nq, ql, sql)
+}
+
+/// the clauses that apply to a list of suggested words (no distances reported): every one is a
+/// dictionary word, is within the bound of the query or of its lower-case form, at most `cap`
+fn suggest_oracle(listed: &HashSet<W>, constructed: &[W], q: &[char], bound: u8, cap: usize, sug: &[W]) -> Vec<(String, String)> {
+    let (nq, ql, sql) = query_forms(q);
+    let mut out = vec![];
+    if sug.len() > cap {
+        out.push(("suggest-cap".to_string(), format!("{} suggestions, cap {}", sug.len(), cap)));
+    }
+    for w in sug {
+        if !listed.contains(w) {
+            let collided = constructed.contains(w) && constructed.iter().any(|o| o != w && key(o) == key(w));
+            out.push((if collided { FST_CASE_VARIANT.to_string() } else { "suggest-not-a-word".to_string() }, format!("suggestion {:?} is not a dictionary word", w2s(w))));
+        }
+        let d = lev(&nq, w).min(lev(&ql, w)).min(lev(&sql, w));
+        if d > bound as usize {
+            out.push(("suggest-bound".to_string(), format!("suggestion {:?} is at distance {} > bound {}", w2s(w), d, bound)));
+        }
+    }
+    out
+}
+
+const API_CAPS: [usize; 4] = [0, 1, 2, 5];
+
+/// one dictionary (behind `Arc<dyn Dictionary>`) × one query: canonical spelling by id, `fuzzy_match_str` and
+/// `suggest_correct_spelling(_str)` for every bound 0..=3 × cap 0, 1, 2, 5
+fn eval_entry_points(sess: &mut impl Rec, name: &str, d: &Arc<dyn Dictionary>, constructed: &[W], mutable: bool, allow_dups: bool, q: &[char], input: &Value) {
+    let listed: Vec<W> = d.words_iter().map(|w| w.to_vec()).collect();
+    let listed_set: HashSet<W> = listed.iter().cloned().collect();
+    let (nq, ql, sql) = query_forms(q);
+    if !mutable && ql != sql {
+        // the FST back-end lower-cases with String::to_lowercase (final sigma): the distance clause
+        // would need a third form; the curated stream below handles it
+        sess.count("api:skipped(char-wise and String lower-casing differ)");
+        return;
+    }
+    let lower_case = ql == nq && sql == nq;
+    sess.o();
+    sess.count(&format!("api:{}", name));
+    let by_id = guarded(|| d.get_word_from_id(&WordId::from_word_chars(q)).map(|w| w.to_vec()));
+    let by_q = guarded(|| d.get_correct_capitalization_of(q).map(|w| w.to_vec()));
+    if by_id != by_q {
+        sess.fail("word-from-id-differs", format!("{}: get_word_from_id(id of the query) = {:?} but get_correct_capitalization_of = {:?}", name, by_id.map(|o| o.map(|w| w2s(&w))), by_q.map(|o| o.map(|w| w2s(&w)))), input.clone(), None);
+    }
+    if let Ok(Some(which)) = guarded(|| str_variants_agree(d, q)) {
+        sess.fail("str-variant-differs-via-arc", format!("{}: {} answers differently from the char-slice variant", name, which), input.clone(), None);
+    }
+    for b in 0..=MAXB {
+        for c in API_CAPS {
+            sess.o();
+            let mut inp = input.clone();
+            inp["bound"] = json!(b);
+            inp["cap"] = json!(c);
+            match run_fuzzy_str(d.as_ref(), q, b, c) {
+                Ok(res) => {
+                    if !res.is_empty() {
+                        sess.nontrivial(&format!("api|{}|{}|{}|{}|{:?}", name, w2s(q), b, c, listed));
+                    }
+                    // a mutable child never returns the empty word (its length window starts at 1, see Props/C15.lean)
+                    let complete = lower_case && !(allow_dups && !mutable && listed.iter().any(|w| w.is_empty()));
+                    for (class, desc) in fuzzy_oracle(&listed, constructed, &nq, &ql, b, c, &res, mutable, complete, allow_dups) {
+                        sess.fail(&via(class, "fuzzy_match_str"), format!("{} fuzzy_match_str: {}", name, desc), inp.clone(), None);
+                    }
+                }
+                Err(e) => sess.fail("fuzzy-panic-via-fuzzy_match_str", format!("{}: fuzzy_match_str panicked: {}", name, trunc(&e, 80)), inp.clone(), None),
+            }
+            match run_suggest(d, q, b, c) {
+                Ok((a, s)) => {
+                    for (fname, sug) in [("suggest_correct_spelling", &a), ("suggest_correct_spelling_str", &s)] {
+                        for (class, desc) in suggest_oracle(&listed_set, constructed, q, b, c, sug) {
+                            sess.fail(&class, format!("{} {}: {}", name, fname, desc), inp.clone(), None);
+                        }
+                    }
+                }
+                Err(e) => sess.fail("suggest-panic", format!("{}: suggest_correct_spelling panicked: {}", name, trunc(&e, 80)), inp.clone(), None),
+            }
+        }
+    }
+}
+
+/// "a merged dictionary behaves as the union of its parts" for every query kind of the trait, the parts given as
+/// `kids` (first child wins), and for the word list
+fn union_oracle(sess: &mut impl Rec, name: &str, merged: &Arc<dyn Dictionary>, kids: &[Arc<dyn Dictionary>], q: &[char], input: &Value) {
+    sess.o();
+    let r = guarded(|| {
+        let mut bad: Vec<&'static str> = vec![];
+        if merged.contains_word(q) != kids.iter().any(|k| k.contains_word(q)) {
+            bad.push("contains_word");
+        }
+        if merged.contains_exact_word(q) != kids.iter().any(|k| k.contains_exact_word(q)) {
+            bad.push("contains_exact_word");
+        }
+        if merged.get_correct_capitalization_of(q) != kids.iter().find_map(|k| k.get_correct_capitalization_of(q)) {
+            bad.push("get_correct_capitalization_of");
+        }
+        if merged.get_word_metadata(q) != kids.iter().find_map(|k| k.get_word_metadata(q)) {
+            bad.push("get_word_metadata");
+        }
+        let id = WordId::from_word_chars(q);
+        if merged.get_word_from_id(&id) != kids.iter().find_map(|k| k.get_word_from_id(&id)) {
+            bad.push("get_word_from_id");
+        }
+        bad
+    });
+    match r {
+        Ok(bad) => {
+            if !bad.is_empty() {
+                sess.fail("merged-not-union-frontend-shape", format!("{}: {} differ(s) from the first-child-wins union of the parts", name, bad.join(", ")), input.clone(), None);
+            }
+        }
+        Err(e) => sess.fail("query-panic", format!("{}: {}", name, trunc(&e, 80)), input.clone(), None),
+    }
+}
+
+/// the word list of a merged dictionary is the union of its parts' word lists
+fn union_words_oracle(sess: &mut impl Rec, name: &str, merged: &Arc<dyn Dictionary>, kids: &[Arc<dyn Dictionary>], input: &Value) {
+    sess.o();
+    let a: HashSet<W> = merged.words_iter().map(|w| w.to_vec()).collect();
+    let b: HashSet<W> = kids.iter().flat_map(|k| k.words_iter()).map(|w| w.to_vec()).collect();
+    if a != b {
+        sess.fail("merged-words-not-union", format!("{}: words_iter lists {} distinct words, the parts list {}", name, a.len(), b.len()), input.clone(), None);
+    }
+    sess.count(if merged.word_count() == a.len() { "api:merged-word_count-counts-distinct-words" } else { "api:merged-word_count-counts-a-shared-word-twice" });
+}
+
+/// children `[c0, c1, c2]` (c0 as an FST back-end when `fst_first`): flat `[k0, k1, k2]`, its clone, nested `[[k0, k1], k2]`;
+/// the single back-ends over all the words: mutable, FST built with `new`, FST built with `into()` from the mutable one
+fn eval_api_small(sess: &mut impl Rec, children: &[Vec<W>], fst_first: bool, queries: &[W], origin: &str) {
+    let mut kids: Vec<Arc<dyn Dictionary>> = vec![];
+    let mut base = 0;
+    for (i, c) in children.iter().enumerate() {
+        if fst_first && i == 0 {
+            kids.push(Arc::new(mk_fst(c, base)));
+        } else {
+            kids.push(Arc::new(mk_mut(c, base)));
+        }
+        base += c.len();
+    }
+    let mut flat = MergedDictionary::new();
+    for k in &kids {
+        flat.add_dictionary(k.clone());
+    }
+    let flat_clone: Arc<dyn Dictionary> = Arc::new(flat.clone());
+    let flat: Arc<dyn Dictionary> = Arc::new(flat);
+    let mut inner = MergedDictionary::new();
+    for k in kids.iter().take(2) {
+        inner.add_dictionary(k.clone());
+    }
+    let inner: Arc<dyn Dictionary> = Arc::new(inner);
+    let mut nested = MergedDictionary::new();
+    nested.add_dictionary(inner.clone());
+    for k in kids.iter().skip(2) {
+        nested.add_dictionary(k.clone());
+    }
+    let nested: Arc<dyn Dictionary> = Arc::new(nested);
+    let nested_parts: Vec<Arc<dyn Dictionary>> = std::iter::once(inner.clone()).chain(kids.iter().skip(2).cloned()).collect();
+    let all: Vec<W> = children.concat();
+    let dm = mk_mut(&all, 0);
+    let via_into: FstDictionary = dm.clone().into();
+    let survivors: Vec<W> = dm.words_iter().map(|w| w.to_vec()).collect();
+    let single: Vec<(&str, Arc<dyn Dictionary>, Vec<W>, bool)> = vec![
+        ("mutable", Arc::new(dm), vec![], true),
+        ("fst-new", Arc::new(mk_fst(&all, 0)), all.clone(), false),
+        ("fst-from-mutable", Arc::new(via_into), survivors, false),
+    ];
+    let constructed: Vec<W> = if fst_first { children[0].clone() } else { vec![] };
+    let cj = json!(children.iter().map(|c| c.iter().map(|w| w2json(w)).collect::<Vec<_>>()).collect::<Vec<_>>());
+    let dinput = json!({"kind": "api-small", "children": cj, "fst_first": fst_first});
+    union_words_oracle(sess, "merged[k0,k1,k2]", &flat, &kids, &dinput);
+    union_words_oracle(sess, "merged[merged[k0,k1],k2]", &nested, &kids, &dinput);
+    for q in queries {
+        let mut input = dinput.clone();
+        input["q"] = w2json(q);
+        sess.count(&format!("api-small:{}", origin));
+        union_oracle(sess, "merged[k0,k1,k2]", &flat, &kids, q, &input);
+        union_oracle(sess, "clone of merged[k0,k1,k2]", &flat_clone, &kids, q, &input);
+        union_oracle(sess, "merged[merged[k0,k1],k2] vs its two parts", &nested, &nested_parts, q, &input);
+        union_oracle(sess, "merged[merged[k0,k1],k2] vs k0,k1,k2", &nested, &kids, q, &input);
+        for (name, d, cons, mutable) in &single {
+            eval_entry_points(sess, name, d, cons, *mutable, false, q, &input);
+        }
+        eval_entry_points(sess, if fst_first { "merged[fst,mut,mut]" } else { "merged[mut,mut,mut]" }, &flat, &constructed, !fst_first, true, q, &input);
+        eval_entry_points(sess, "nested-merged", &nested, &constructed, !fst_first, true, q, &input);
+    }
+}
+
+fn sibling_words(rng: &mut Rng, n: usize, maxlen: usize) -> Vec<W> {
+    let mut words: Vec<W> = vec![];
+    for _ in 0..n {
+        let w = if !words.is_empty() && rng.chance(1, 3) {
+            let base = words[rng.below(words.len())].clone();
+            match rng.below(3) {
+                0 => base.iter().flat_map(|c| c.to_uppercase()).collect(),
+                1 => lower(&base),
+                _ => mutate(rng, &base),
+            }
+        } else {
+            random_word(rng, maxlen)
+        };
+        words.push(w);
+    }
+    words
+}
+
+fn stream_api_small(sess: &mut Session, ctx: &Ctx, rng: &mut Rng) {
+    let thorough = ctx.tier == Tier::Thorough;
+    // exhaustive: every ordered triple of dictionaries of ≤1 word over {a, A, b, ab, Ab}, first child mutable / FST, 10 queries
+    let mv: Vec<W> = ["a", "A", "b", "ab", "Ab"].iter().map(|s| s2w(s)).collect();
+    let mq: Vec<W> = ["a", "A", "b", "B", "ab", "AB", "Ab", "", "c", "aB"].iter().map(|s| s2w(s)).collect();
+    let kids1 = seqs(&mv, 1);
+    let n1 = kids1.len();
+    let _ = FstDictionary::curated();
+    par_jobs(sess, n1 * n1 * n1 * 2, |j, log| {
+        let (i, fst_first) = (j / 2, j % 2 == 1);
+        let cs = [kids1[i / (n1 * n1)].clone(), kids1[(i / n1) % n1].clone(), kids1[i % n1].clone()];
+        eval_api_small(log, &cs, fst_first, &mq, "exhaustive-3");
+    });
+    // random: three children cut from one list with re-cased / edited siblings and non-ASCII letters (a word may be in two children)
+    let n = if thorough { 1200 } else { 160 };
+    let mut jobs: Vec<(Vec<Vec<W>>, bool, Vec<W>)> = vec![];
+    for _ in 0..n {
+        let nw = rng.range(2, 10);
+        let words = sibling_words(rng, nw, 7);
+        let (a, b) = (rng.below(words.len() + 1), rng.below(words.len() + 1));
+        let (a, b) = (a.min(b), a.max(b));
+        let mut c2 = words[b..].to_vec();
+        if rng.chance(1, 2) {
+            c2.push(words[0].clone()); // listed by two children
+        }
+        let children = vec![words[..a].to_vec(), words[a..b].to_vec(), c2];
+        let qs: Vec<W> = (0..3)
+            .map(|_| match rng.below(4) {
+                0 => words[rng.below(words.len())].clone(),
+                1 => words[rng.below(words.len())].iter().flat_map(|c| c.to_uppercase()).collect(),
+                2 => {
+                    let i = rng.below(words.len());
+                    mutate(rng, &words[i])
+                }
+                _ => random_word(rng, 7),
+            })
+            .collect();
+        jobs.push((children, rng.chance(1, 2), qs));
+    }
+    par_jobs(sess, jobs.len(), |j, log| {
+        let (children, fst_first, qs) = &jobs[j];
+        eval_api_small(log, children, *fst_first, qs, "random-3");
+        // the same shape through the existing evaluators: K `mq` / `mfz` when every child is mutable, O with an FST first child
+        // (with an FST child `eval_merged` demands every near word, and a mutable child never returns the empty word)
+        if !*fst_first || !children.iter().flatten().any(|w| w.is_empty()) {
+            eval_merged(log, children, if *fst_first { Some(0) } else { None }, qs, true, "w25-random-3");
+        }
+    });
+}
+
+/// a dictionary that is queried while it grows (`append_word`, `append_word_str`, `extend_words` with one or two words),
+/// and its clone: after every step K `dq` / `fzall` with the words added so far
+fn stream_incremental(sess: &mut Session, ctx: &Ctx, rng: &mut Rng) {
+    let n = if ctx.tier == Tier::Thorough { 600 } else { 120 };
+    for _ in 0..n {
+        let nw = rng.range(2, 8);
+        let words = sibling_words(rng, nw, 6);
+        let mut dm = MutableDictionary::new();
+        let mut i = 0;
+        while i < words.len() {
+            let how = rng.below(4);
+            match how {
+                0 => dm.append_word(words[i].as_slice(), meta(i)),
+                1 => dm.append_word_str(&w2s(&words[i]), meta(i)),
+                2 => dm.extend_words(std::iter::once((words[i].clone(), meta(i)))),
+                _ => {
+                    let upto = (i + 2).min(words.len());
+                    dm.extend_words((i..upto).map(|j| (words[j].clone(), meta(j))));
+                    i = upto - 1;
+                }
+            }
+            i += 1;
+            sess.count(["incremental:append_word", "incremental:append_word_str", "incremental:extend_words(1)", "incremental:extend_words(2)"][how]);
+            let prefix = &words[..i];
+            let fw = fst_order(prefix);
+            let df = mk_fst(prefix, 0);
+            let q = match rng.below(3) {
+                0 => prefix[rng.below(prefix.len())].clone(),
+                1 => prefix[rng.below(prefix.len())].iter().flat_map(|c| c.to_uppercase()).collect(),
+                _ => {
+                    let j = rng.below(prefix.len());
+                    mutate(rng, &prefix[j])
+                }
+            };
+            if rng.chance(1, 3) {
+                let copy = dm.clone();
+                eval_dq(sess, prefix, &copy, &df, &fw, &q, "incremental-clone");
+                eval_fz(sess, prefix, &copy, &df, &fw, &q, "incremental-clone");
+            } else {
+                eval_dq(sess, prefix, &dm, &df, &fw, &q, "incremental");
+                eval_fz(sess, prefix, &dm, &df, &fw, &q, "incremental");
+            }
+            sess.o();
+            if dm != mk_mut(prefix, 0) {
+                sess.fail("incremental-differs", "a dictionary grown step by step (append_word / append_word_str / extend_words) is not equal to one built from the same words in the same order".into(), json!({"kind": "dq", "words": prefix.iter().map(|w| w2json(w)).collect::<Vec<_>>(), "q": w2json(&q)}), None);
+            }
+        }
+    }
+}
+
+// ---- front-end shaped merged dictionaries over the curated one ----------------------------------
+
+struct Frontend {
+    fst: Arc<dyn Dictionary>,
+    mutable: Arc<dyn Dictionary>,
+    user: Arc<dyn Dictionary>,
+    file: Arc<dyn Dictionary>,
+    /// harper-ls / harper-cli: curated, user, file
+    ls: Arc<dyn Dictionary>,
+    /// a merged dictionary as a child of a merged dictionary
+    nested: Arc<dyn Dictionary>,
+    inner: Arc<dyn Dictionary>,
+    /// the user's dictionary consulted first
+    user_first: Arc<dyn Dictionary>,
+    extra: Vec<W>,
+}
+
+const FE_USER: [&str; 12] = ["markdown", "github", "Harperish", "zqxv", "HELLO", "naïveté", "we’ll", "o'clockish", "Zürich", "iphone", "ΣΑΣ", "blorked"];
+const FE_FILE: [&str; 8] = ["Harperish", "harperish", "Markdown", "fileonlyword", "FILEONLY", "zqxw", "GitHub", "blorkedly"];
+
+fn frontend(cur: &Curated) -> Frontend {
+    let uw: Vec<W> = FE_USER.iter().map(|s| s2w(s)).collect();
+    let fw: Vec<W> = FE_FILE.iter().map(|s| s2w(s)).collect();
+    let fst: Arc<dyn Dictionary> = cur.fst.clone();
+    let mutable: Arc<dyn Dictionary> = cur.mutable.clone();
+    // the way harper-ls / harper-cli `load_dict` and harper-wasm `import_words` fill a user dictionary: extend_words, default metadata
+    let mut u = MutableDictionary::new();
+    u.extend_words(uw.iter().map(|w| (w.clone(), WordMetadata::default())));
+    let mut f = MutableDictionary::new();
+    f.extend_words(fw.iter().enumerate().map(|(i, w)| (w.clone(), meta(i))));
+    let (user, file): (Arc<dyn Dictionary>, Arc<dyn Dictionary>) = (Arc::new(u), Arc::new(f));
+    let mk = |kids: &[&Arc<dyn Dictionary>]| -> Arc<dyn Dictionary> {
+        let mut m = MergedDictionary::new();
+        for k in kids {
+            m.add_dictionary((*k).clone());
+        }
+        Arc::new(m)
+    };
+    let ls = mk(&[&fst, &user, &file]);
+    let inner = mk(&[&fst, &user]);
+    let nested = mk(&[&inner, &file]);
+    let user_first = mk(&[&user, &fst]);
+    // what the two small dictionaries really list (a later word with the same key replaces an earlier one)
+    let extra: Vec<W> = user.words_iter().chain(file.words_iter()).map(|w| w.to_vec()).collect();
+    Frontend { fst, mutable, user, file, ls, nested, inner, user_first, extra }
+}
+
+fn frontend_queries(cur: &Curated, rng: &mut Rng, n: usize) -> Vec<W> {
+    let mut qs: Vec<W> = vec![];
+    for s in FE_USER.iter().chain(FE_FILE.iter()) {
+        let w = s2w(s);
+        qs.push(w.iter().flat_map(|c| c.to_uppercase()).collect());
+        qs.push(lower(&w));
+        qs.push(w.iter().map(|c| if *c == '’' { '\'' } else if *c == '\'' { '’' } else { *c }).collect());
+        qs.push(w);
+    }
+    for s in ["markdwn", "githb", "harperis", "fileonlywor", "zqx", "blorke", "helo", "iphon", "Ｆｕｌｌ", "e\u{301}lan", "𝐛𝐨𝐥𝐝", "a\u{200b}b"] {
+        qs.push(s2w(s));
+    }
+    let rest = curated_queries(cur, rng, n);
+    qs.extend(rest);
+    qs
+}
+
+/// exact queries: union of the parts for every merged shape; canonical spelling by id on every back-end
+fn frontend_exact(fe: &Frontend, q: &[char]) -> Vec<(String, String)> {
+    let mut log = Log::default();
+    let input = json!({});
+    union_oracle(&mut log, "merged[curated,user,file]", &fe.ls, &[fe.fst.clone(), fe.user.clone(), fe.file.clone()], q, &input);
+    union_oracle(&mut log, "merged[merged[curated,user],file] vs its two parts", &fe.nested, &[fe.inner.clone(), fe.file.clone()], q, &input);
+    union_oracle(&mut log, "merged[merged[curated,user],file] vs curated,user,file", &fe.nested, &[fe.fst.clone(), fe.user.clone(), fe.file.clone()], q, &input);
+    union_oracle(&mut log, "merged[user,curated]", &fe.user_first, &[fe.user.clone(), fe.fst.clone()], q, &input);
+    let mut out: Vec<(String, String)> = log.evs.into_iter().filter_map(|e| if let Ev::Fail(c, d, _, _) = e { Some((c, d)) } else { None }).collect();
+    let id = WordId::from_word_chars(q);
+    let canon = |d: &Arc<dyn Dictionary>| d.get_correct_capitalization_of(q).map(|w| w.to_vec());
+    let by_id = |d: &Arc<dyn Dictionary>| d.get_word_from_id(&id).map(|w| w.to_vec());
+    for (name, d) in [("fst", &fe.fst), ("mutable", &fe.mutable), ("merged[curated,user,file]", &fe.ls), ("user", &fe.user)] {
+        if by_id(d) != canon(d) {
+            out.push(("word-from-id-differs".into(), format!("{}: get_word_from_id(id of the query) = {:?} but get_correct_capitalization_of = {:?}", name, by_id(d).map(|w| w2s(&w)), canon(d).map(|w| w2s(&w)))));
+        }
+        if let Some(which) = str_variants_agree(d, q) {
+            out.push(("str-variant-differs-via-arc".into(), format!("{}: {} answers differently from the char-slice variant", name, which)));
+        }
+    }
+    if by_id(&fe.fst) != by_id(&fe.mutable) {
+        out.push(("backends-differ-word-from-id".into(), format!("get_word_from_id: fst {:?} vs mutable {:?}", by_id(&fe.fst).map(|w| w2s(&w)), by_id(&fe.mutable).map(|w| w2s(&w)))));
+    }
+    out
+}
+
+/// the fuzzy clauses on one result list over curated + `extra` words; `truth` (every word within the bound of the
+/// lower-case query) only where completeness is demanded
+fn frontend_clauses(cur: &Curated, extra: &[W], q: &[char], bound: u8, cap: usize, res: &Res, mutable: bool, allow_dups: bool, truth: Option<&Vec<(W, usize, usize)>>) -> Vec<(&'static str, String)> {
+    let (nq, ql, sql) = query_forms(q);
+    let mut out = vec![];
+    if res.len() > cap {
+        out.push(("fuzzy-cap", format!("{} results, cap {}", res.len(), cap)));
+    }
+    if !res.windows(2).all(|p| p[0].1 <= p[1].1) {
+        out.push(("fuzzy-unsorted", "results not ordered by distance".into()));
+    }
+    let mut seen: HashSet<W> = HashSet::new();
+    for (w, d) in res {
+        if !(cur.set.contains(w) || extra.contains(w)) {
+            out.push(("fuzzy-not-a-word", format!("result {:?} is not a dictionary word", w2s(w))));
+            continue;
+        }
+        let ds = [lev(&nq, w), lev(&ql, w), lev(&sql, w)];
+        let ok = if mutable { *d as usize == ds[0].min(ds[1]) } else { ds.contains(&(*d as usize)) };
+        if !ok {
+            out.push(("fuzzy-distance", format!("{:?} reported at {}, true distances {:?}", w2s(w), d, ds)));
+        }
+        if *d > bound {
+            out.push(("fuzzy-bound", format!("{:?} at distance {} > bound {}", w2s(w), d, bound)));
+        }
+        if !seen.insert(w.clone()) && !allow_dups {
+            out.push(("fuzzy-duplicate", format!("{:?} returned twice", w2s(w))));
+        }
+    }
+    if let Some(truth) = truth {
+        let last = res.last().map(|r| r.1 as usize).unwrap_or(0);
+        for (w, d1, d2) in truth {
+            let d = *d1.min(d2);
+            if !seen.contains(w) && !(res.len() == cap && d >= last) {
+                out.push(("fuzzy-missed", format!("{:?} at distance {} ≤ {} was not returned ({} results, cap {})", w2s(w), d, bound, res.len(), cap)));
+                break;
+            }
+        }
+    }
+    out
+}
+
+fn frontend_fuzzy(cur: &Curated, fe: &Frontend, q: &[char], bound: u8, cap: usize) -> Vec<(String, String)> {
+    let mut out: Vec<(String, String)> = vec![];
+    let (nq, ql, sql) = query_forms(q);
+    let lower_case = ql == nq && sql == nq;
+    let truth_all = if lower_case { Some(near(cur, &fe.extra, &nq, &ql, bound as usize)) } else { None };
+    let truth_cur = if lower_case { Some(near(cur, &[], &nq, &ql, bound as usize)) } else { None };
+    let none: Vec<W> = vec![];
+    // (name, dictionary, extra words, mutable, duplicates allowed, ground truth for completeness)
+    let shapes: Vec<(&str, &Arc<dyn Dictionary>, &Vec<W>, bool, bool, &Option<Vec<(W, usize, usize)>>)> = vec![
+        ("merged[curated,user,file]", &fe.ls, &fe.extra, false, true, &truth_all),
+        ("merged[merged[curated,user],file]", &fe.nested, &fe.extra, false, true, &truth_all),
+        ("fst", &fe.fst, &none, false, false, &truth_cur),
+        ("mutable", &fe.mutable, &none, true, false, &truth_cur),
+    ];
+    for (name, d, extra, mutable, dups, truth) in shapes {
+        // fuzzy_match on the merged shapes (the single back-ends are in stream_curated), fuzzy_match_str on all
+        if !mutable && name != "fst" {
+            match run_fuzzy(d.as_ref(), q, bound, cap) {
+                Ok(res) => {
+                    for (class, desc) in frontend_clauses(cur, extra, q, bound, cap, &res, mutable, dups, truth.as_ref()) {
+                        out.push((format!("{}-frontend-shape", class), format!("{} fuzzy_match: {}", name, desc)));
+                    }
+                }
+                Err(e) => out.push(("fuzzy-panic".into(), format!("{}: fuzzy_match panicked: {}", name, trunc(&e, 80)))),
+            }
+        }
+        match run_fuzzy_str(d.as_ref(), q, bound, cap) {
+            Ok(res) => {
+                for (class, desc) in frontend_clauses(cur, extra, q, bound, cap, &res, mutable, dups, truth.as_ref()) {
+                    out.push((via(class, "fuzzy_match_str"), format!("{} fuzzy_match_str: {}", name, desc)));
+                }
+            }
+            Err(e) => out.push(("fuzzy-panic-via-fuzzy_match_str".into(), format!("{}: fuzzy_match_str panicked: {}", name, trunc(&e, 80)))),
+        }
+        if mutable || name == "merged[merged[curated,user],file]" {
+            continue; // the suggestion functions: on the FST back-end and the harper-ls shape
+        }
+        match run_suggest(d, q, bound, cap) {
+            Ok((a, s)) => {
+                for (fname, sug) in [("suggest_correct_spelling", &a), ("suggest_correct_spelling_str", &s)] {
+                    if sug.len() > cap {
+                        out.push(("suggest-cap".into(), format!("{} {}: {} suggestions, cap {}", name, fname, sug.len(), cap)));
+                    }
+                    for w in sug.iter() {
+                        if !(cur.set.contains(w) || extra.contains(w)) {
+                            out.push(("suggest-not-a-word".into(), format!("{} {}: suggestion {:?} is not a dictionary word", name, fname, w2s(w))));
+                        }
+                        let dist = lev(&nq, w).min(lev(&ql, w)).min(lev(&sql, w));
+                        if dist > bound as usize {
+                            out.push(("suggest-bound".into(), format!("{} {}: suggestion {:?} is at distance {} > bound {}", name, fname, w2s(w), dist, bound)));
+                        }
+                    }
+                }
+            }
+            Err(e) => out.push(("suggest-panic".into(), format!("{}: suggest_correct_spelling panicked: {}", name, trunc(&e, 80)))),
+        }
+    }
+    out
+}
+
+const FE_SETTINGS: [(u8, usize); 10] = [(1, 3), (2, 1), (2, 100), (3, 10), (0, 5), (2, 0), (1, 100), (3, 200), (0, 0), (2, 1000)];
+
+fn stream_frontend(sess: &mut Session, ctx: &Ctx, rng: &mut Rng) {
+    let cur = curated();
+    let fe = frontend(&cur);
+    let thorough = ctx.tier == Tier::Thorough;
+    let input = json!({"kind": "frontend-words"});
+    union_words_oracle(sess, "merged[curated,user,file]", &fe.ls, &[fe.fst.clone(), fe.user.clone(), fe.file.clone()], &input);
+    union_words_oracle(sess, "merged[merged[curated,user],file]", &fe.nested, &[fe.fst.clone(), fe.user.clone(), fe.file.clone()], &input);
+    let queries = frontend_queries(&cur, rng, if thorough { 6000 } else { 1000 });
+    let threads = std::thread::available_parallelism().map(|n| n.get()).unwrap_or(4).min(16);
+    let res = par_map(queries.len(), threads, |i| guarded(|| frontend_exact(&fe, &queries[i])));
+    for (i, r) in res.into_iter().enumerate() {
+        sess.o();
+        sess.count("frontend:exact-query");
+        let input = json!({"kind": "frontend-exact", "q": w2json(&queries[i])});
+        match r {
+            Ok(fails) => {
+                if fe.ls.contains_word(&queries[i]) {
+                    sess.nontrivial(&format!("fq{}", w2s(&queries[i])));
+                    sess.count(if fe.fst.contains_word(&queries[i]) { "frontend:found-in-curated" } else { "frontend:found-in-user-or-file-only" });
+                }
+                for (class, desc) in fails {
+                    sess.fail(&class, format!("query {:?}: {}", trunc(&w2s(&queries[i]), 40), desc), input.clone(), None);
+                }
+            }
+            Err(e) => sess.fail("query-panic", format!("query {:?} panicked: {}", trunc(&w2s(&queries[i]), 40), trunc(&e, 80)), input, None),
+        }
+    }
+    let nf = if thorough { 900 } else { 110 };
+    let jobs: Vec<(usize, u8, usize)> = (0..nf.min(queries.len())).map(|i| (i, FE_SETTINGS[i % FE_SETTINGS.len()].0, FE_SETTINGS[i % FE_SETTINGS.len()].1)).collect();
+    let res = par_map(jobs.len(), threads, |j| {
+        let (i, b, c) = jobs[j];
+        guarded(|| frontend_fuzzy(&cur, &fe, &queries[i], b, c))
+    });
+    for (j, r) in res.into_iter().enumerate() {
+        let (i, b, c) = jobs[j];
+        sess.o();
+        sess.count("frontend:fuzzy-query");
+        if c == 0 {
+            sess.count("frontend:cap-0");
+        }
+        let input = json!({"kind": "frontend-fuzzy", "q": w2json(&queries[i]), "bound": b, "cap": c});
+        match r {
+            Ok(fails) => {
+                sess.nontrivial(&format!("ff{}:{}:{}", w2s(&queries[i]), b, c));
+                for (class, desc) in fails {
+                    sess.fail(&class, format!("query {:?} bound {} cap {}: {}", trunc(&w2s(&queries[i]), 40), b, c, desc), input.clone(), None);
+                }
+            }
+            Err(e) => sess.fail("fuzzy-panic", format!("query {:?}: {}", trunc(&w2s(&queries[i]), 40), trunc(&e, 80)), input, None),
+        }
+    }
+}
+
+fn replay_w25(sess: &mut Session, v: &Value) -> bool {
+    match v["kind"].as_str().unwrap_or("") {
+        "api-small" => {
+            let children: Vec<Vec<W>> = v["children"].as_array().map(|a| a.iter().map(|c| c.as_array().map(|x| x.iter().map(json2w).collect()).unwrap_or_default()).collect()).unwrap_or_default();
+            let fst_first = v["fst_first"].as_bool().unwrap_or(false);
+            eval_api_small(sess, &children, fst_first, &[json2w(&v["q"])], "replay");
+            true
+        }
+        "frontend-exact" | "frontend-fuzzy" | "frontend-words" => {
+            let cur = curated();
+            let fe = frontend(&cur);
+            let q = json2w(&v["q"]);
+            let mut fails = frontend_exact(&fe, &q);
+            if v["kind"] == "frontend-fuzzy" {
+                fails.extend(frontend_fuzzy(&cur, &fe, &q, v["bound"].as_u64().unwrap_or(2) as u8, v["cap"].as_u64().unwrap_or(100) as usize));
+            }
+            union_words_oracle(sess, "merged[curated,user,file]", &fe.ls, &[fe.fst.clone(), fe.user.clone(), fe.file.clone()], v);
+            sess.o();
+            for (class, desc) in fails {
+                sess.fail(&class, desc, v.clone(), None);
+            }
+            true
+        }
+        _ => false,
+    }
+}
+
+// ---------------------------------------------------------------------------------------------
 
 fn replay(sess: &mut Session, v: &Value) {
     let kind = v["kind"].as_str().unwrap_or("");
     let words = |key: &str| -> Vec<W> { v[key].as_array().map(|a| a.iter().map(json2w).collect()).unwrap_or_default() };
     let children = || -> Vec<Vec<W>> { v["children"].as_array().map(|a| a.iter().map(|c| c.as_array().map(|x| x.iter().map(json2w).collect()).unwrap_or_default()).collect()).unwrap_or_default() };
+    if replay_w25(sess, v) {
+        return;
+    }
     match kind {
         "ed" => eval_ed(sess, &json2w(&v["a"]), &json2w(&v["b"]), "replay", false),
         "dq" | "fz" => {
@@ -1271,10 +1889,17 @@ pub fn run(ctx: &Ctx) {
     let t3 = std::time::Instant::now();
     stream_curated(&mut sess, ctx, &mut rng);
     let t4 = std::time::Instant::now();
-    let stream_ms = json!({"distance": (t1 - t0).as_millis() as u64, "small-scope": (t2 - t1).as_millis() as u64, "random-dictionaries": (t3 - t2).as_millis() as u64, "curated": (t4 - t3).as_millis() as u64});
+    // w25
+    stream_api_small(&mut sess, ctx, &mut rng);
+    let t5 = std::time::Instant::now();
+    stream_incremental(&mut sess, ctx, &mut rng);
+    let t6 = std::time::Instant::now();
+    stream_frontend(&mut sess, ctx, &mut rng);
+    let t7 = std::time::Instant::now();
+    let stream_ms = json!({"distance": (t1 - t0).as_millis() as u64, "small-scope": (t2 - t1).as_millis() as u64, "random-dictionaries": (t3 - t2).as_millis() as u64, "curated": (t4 - t3).as_millis() as u64, "w25-entry-points-small": (t5 - t4).as_millis() as u64, "w25-incremental": (t6 - t5).as_millis() as u64, "w25-frontend-shapes": (t7 - t6).as_millis() as u64});
     let thorough = ctx.tier == Tier::Thorough;
     sess.finish(
-        "distance: corpus + u8 boundary; ALL pairs of strings of length ≤4 (quick) / ≤5 (thorough) over {a,b,c}; random pairs (related/unrelated, non-ASCII, ≤24 chars); lengths 250–260. dictionaries: corpus; all ordered word sequences over {a,b,A} as described in extra.exhaustive_scope × all queries × bounds 0..3 × caps 1..3 for the mutable and FST back-ends; merged dictionaries of 2–3 children; random dictionaries with re-cased/edited siblings and non-ASCII. curated: agreement of FST/mutable/merged on exact queries and the fuzzy clauses against a brute-force search. Non-trivial = distance strictly between 0 and max length / a panic in the ≥255 domain / an exact query that finds a word / a fuzzy query with ≥1 result; distinct by op line or query.",
+        "distance: corpus + u8 boundary; ALL pairs of strings of length ≤4 (quick) / ≤5 (thorough) over {a,b,c}; random pairs (related/unrelated, non-ASCII, ≤24 chars); lengths 250–260. dictionaries: corpus; all ordered word sequences over {a,b,A} as described in extra.exhaustive_scope × all queries × bounds 0..3 × caps 1..3 for the mutable and FST back-ends; merged dictionaries of 2–3 children; random dictionaries with re-cased/edited siblings and non-ASCII. curated: agreement of FST/mutable/merged on exact queries and the fuzzy clauses against a brute-force search. Non-trivial = distance strictly between 0 and max length / a panic in the ≥255 domain / an exact query that finds a word / a fuzzy query with ≥1 result; distinct by op line or query. w25 (O; K where an existing op applies): fuzzy_match_str, get_word_from_id, suggest_correct_spelling(_str), words_iter of merged dictionaries — every clause again at these entry points, through Arc<dyn Dictionary>, caps 0/1/2/5 × bounds 0..3, on mutable / FST (new and from a mutable) / merged [k0,k1,k2] (FST or mutable first child, a word in two children) / nested merged / clones: all triples of dictionaries of ≤1 word over {a,A,b,ab,Ab} × 10 queries + random triples; dictionaries queried while they grow (append_word / append_word_str / extend_words, clone; K dq / fzall / fzfall after every step); over the curated dictionary the front-end shapes merged[curated,user,file], merged[merged[curated,user],file], merged[user,curated] with user / file words that are case variants of curated entries and of each other (union of the parts for every query kind incl. by id; the fuzzy clauses against the brute-force search; cap 0).",
         true,
         json!({
             "stream_ms": stream_ms,
